@@ -253,8 +253,10 @@ func Cls(r any) string {
 		return "rt-divide"
 	case has(msg, "nil pointer dereference") || has(msg, "invalid memory address"):
 		return "rt-nilderef"
-	case has(msg, "interface conversion"):
+	case has(msg, "interface conversion") || has(msg, "type assertion"):
 		return "rt-typeassert"
+	case has(msg, "cannot convert slice"):
+		return "rt-slice2array"
 	case has(msg, "nil map"):
 		return "rt-nilmap"
 	case has(msg, "negative shift"):
